@@ -376,6 +376,9 @@ func scenarios() []scenario {
 		if strings.Contains(name, "stall110") {
 			stall = 110 * time.Millisecond
 		}
+		if strings.Contains(name, "stall60") { // more than one period, less than two: nothing may look stale yet
+			stall = 60 * time.Millisecond
+		}
 		out = append(out, scenario{Name: name, Backend: backend, Init: init, Contenders: cs, Bound: bound, Hold: hold, Stall: stall})
 	}
 	T := func(o bool) contender { return contender{aTry, o, 1} }
@@ -393,6 +396,7 @@ func scenarios() []scenario {
 	add("dead-nofile/2xTry-override", "posixmem", "dead-nofile", 2, T(true), T(true))
 	add("dead/Lock-override+Lock-override P1", "posixmem", "dead", 1, L(true), L(true))
 	add("free/Try+Try-override stall110", "posixmem", "free", 2, T(false), T(true))
+	add("free/Try+Try-override stall60", "posixmem", "free", 2, T(false), T(true))
 	add("free/Try+Lock-override hold147 P1", "posixmem", "free", 1, T(false), L(true))
 	add("noroot/2xTry", "posixmem", "noroot", 2, T(false), T(false))
 	add("noroot/Try+Lock-override(os)", "os", "noroot", 2, T(false), L(true))
